@@ -142,6 +142,32 @@ def instances(env, cfg, family, B, seed):
             k = torch.randint(1, 9, lh.shape, generator=g).float() / 16.0
             td["demand_linehaul"] = torch.where(lh > 0, k, lh)
             td["demand_backhaul"] = torch.where(bh > 0, k, bh)
+            # time-window equality in exact arithmetic: the first customers sit on dyadic 3-4-5 points, so the distance
+            # from the depot (placed at the origin) is exactly representable; their window ends exactly at that arrival
+            # time (service may start AT the end of a window), so they are servable only as the first stop of a route
+            tw = td["time_windows"]
+            has_tw = torch.isfinite(tw[:, 1:, 1]).any(-1)
+            if bool(has_tw.any()) and n >= 3:
+                pts = torch.tensor([[0.375, 0.5], [0.1875, 0.25], [0.5, 0.375], [0.25, 0.1875]])[: max(1, min(4, n // 2))]
+                locs = td["locs"].clone()
+                sp = td["speed"].reshape(B)
+                for b in range(B):
+                    if not bool(has_tw[b]) or float(sp[b]) != 1.0:
+                        continue
+                    locs[b, 0] = 0.0
+                    for j, p_ in enumerate(pts):
+                        locs[b, 1 + j] = p_
+                        d = float((p_ ** 2).sum().sqrt())
+                        tw[b, 1 + j, 0] = 0.0
+                        tw[b, 1 + j, 1] = d
+                    # keep the rest reachable from the new depot position: open their windows wide
+                    tw[b, 1 + len(pts):, 0] = 0.0
+                    tw[b, 1 + len(pts):, 1] = tw[b, 0, 1] - 1.5
+                td["locs"], td["time_windows"] = locs, tw
+                if "distance_limit" in td.keys():
+                    dl = td["distance_limit"].clone()
+                    dl[torch.isfinite(dl)] = 3.5  # the relocated depot must not make round trips exceed the limit
+                    td["distance_limit"] = dl
             return td
         return td
     if family == "degenerate":
